@@ -147,6 +147,9 @@ fn main() {
     if args.iter().any(|a| a == "--cache-fault") {
         CACHE_FAULT.store(true, SeqCst);
     }
+    if args.iter().any(|a| a == "--callbacks") {
+        CALLBACKS.store(true, SeqCst);
+    }
     std::panic::set_hook(Box::new(|_| {}));
     let mut r = StdRng::seed_from_u64(seed ^ 0x5e9);
     let models: Vec<Model> = match inst_file {
